@@ -72,6 +72,10 @@ CHECKS = {
   text="Bounded exhaustive enumeration: every text of <= 3 (quick) / 4 (thorough) code units per source encoding (UTF-16 LE/BE incl. surrogate pairs, lone surrogates and a trailing odd byte; UTF-8 incl. malformed sequences; latin1; shift_jis) under 17 BOM / --encoding combinations (mark overriding a conflicting label, --encoding none with a mark), also aligned to the 8 KiB transcoding buffer at offsets -6..6; x search_slice, search_path with/without mmap, search_reader with roll-buffer capacity 1/3/8 x every composition of the input length as read sizes; x four patterns (one multi-line). Reference: encoding_rs applied in the harness, then a plain slice search of the UTF-8 result; full Sink event streams compared.",
   note="Trusted: encoding_rs as the meaning of each encoding. Three open known findings, all inside the encoding_rs_io / encoding_rs dependencies (pending bytes dropped after EOF on tiny reads; UTF-8 mark not overriding a label; incomplete trailing sequence dropped), each recognised by a counterfactual switch of the reference.",
   tech="bounded exhaustive enumeration of texts x encodings x strategies x read/buffer histories against a reference transcoder"),
+ "C18": dict(cat="fault_enumeration", ref="DESIGN.md §3-E5, §4 C18",
+  text="Exhaustive enumeration of child-process behaviours on the real rg binary: --pre with a helper script whose stdout shape (the file, upper-cased, empty, 220 KiB, a NUL after the first line), stderr volume (none, 10 bytes, 1 MiB written before stdout), exit (0, 1, 2, 255, kill -9) and moment of death (before / during / after its output) are the alphabet x rg consuming in {full, -m1, -q, -l, -c, implicit directory search with binary quit} x --pre-glob in {*.txt, absent, !*.dat, *.dat, !*.txt} (quick: one dimension varied at a time; thorough: the full product, 6750 cases), a missing and a non-executable command; -z on gzip / bzip2 / xz archives truncated at EVERY byte length, an unrecognised extension, a plain file. Oracle: results equal rg run on the bytes the command wrote when run once outside rg; non-selected files searched directly; failure after the output was consumed or failure to start => diagnostic naming the file and status 2; early stop with empty stderr is no error; every run ends within a 10 s horizon.",
+  note="Trusted: /bin/sh, gzip, bzip2, xz as the environment. The early-stop x non-empty-stderr cell is executed but not judged (racy by construction and not specified). Where binary detection fires depends on how bytes arrive (C14), so the NUL shape is judged on errors and blocking only.",
+  tech="exhaustive fault enumeration over the child-process behaviour alphabet x consumption modes; every truncation point of each archive"),
  "C19": dict(cat="exploration", ref="DESIGN.md §4 C19",
   text="Bounded exhaustive enumeration in two layers: (1) every replacement template that is a token string of length <= 3 (quick) / 4 (thorough) over a 19-token grammar ($, $$, $N, ${N}, $name, ${name}, unterminated and empty braces, ...) x 21 patterns with optional / nested / named / empty-matching groups x 6 haystacks: the matcher's interpolation against regex::bytes::Captures::expand; (2) the standard printer with -r for 23 templates x the patterns x every input over {a,b,-,\\n} up to length 4/5 x {plain, -o, --crlf, --column, -v -C1, -U}: printed output against per-line replace-all with the terminator held aside, per-match expansion under -o, lines without a match unaltered.",
   note="Trusted: the regex crate version in Cargo.lock as the specification of the replacement syntax. Two open known findings with counterfactual switches (braced reference name charset — pinned by the repository's own unit tests; a replacement ending in a newline swallows the line's terminator).",
